@@ -450,10 +450,7 @@ class Project:
                 raise RuntimeError("Multiple licenses resolve to {identifier}")
             # Add the identifiers
             license_files[identifier] = path
-            if (
-                _LICENSEREF_PATTERN.match(identifier)
-                and "Unknown" not in identifier
-            ):
+            if _LICENSEREF_PATTERN.match(identifier):
                 self.license_map[identifier] = {
                     "reference": str(path),
                     "isDeprecatedLicenseId": False,
